@@ -571,6 +571,14 @@ def cex_search(unit, logdir):
                          "--test-threads", "8"], cwd=ws, timeout=1500, log=os.path.join(logdir, "cex_search.log"))
     found = sorted(set(re.findall(r"^VERIF-CEX .*$", out, re.M)))
     ran = bool(re.search(r"test result:", out))
+    # a search test that dies inside the code under test (an assert / index / overflow panic in /repo's code, not the
+    # search's own report()) is a failing input as well: the tests pass on the unchanged tree
+    for m in re.finditer(r"thread '([^']+)' \(?\d*\)? ?panicked at ([^\n]+):\n([^\n]*)", out):
+        tname, loc, msg = m.group(1), m.group(2), m.group(3)
+        if "VERIF-CEX" in msg or "verif_cex" not in tname:
+            continue
+        found.append("VERIF-CEX kind=panic-in-code-under-test test=%s at=%s message=%s" % (tname.split("::")[-1], loc, msg[:200]))
+    found = sorted(set(found))
     return {"ran": ran, "found": found[:20], "wall_s": round(wall, 1), "rc": rc,
             "note": "" if ran else "search did not run: " + out[-600:]}
 
